@@ -763,6 +763,8 @@ def code_to_spec(chk, tier, only_seed=None):
     # self-test of the binding: corrupt one recorded field per run, the runs must be rejected
     pick = [tr for tr in good if any(s["ev"] == "Tick" and s["created"] and s["st"] in ("finished", "failed") for s in tr)][:4]
     if len(pick) < 3:
+        if chk.violations:
+            return          # the recorded runs are rejected for a reason that is already reported
         raise MachineryError("no recorded run with a verdict to corrupt")
     bad_runs = []
     for j, tr in enumerate(pick):
